@@ -27,6 +27,34 @@ Definition tube_quad (flip : nat -> nat -> bool) (sides j i : nat) : list nat :=
 Definition tube_idx (flip : nat -> nat -> bool) (sides points : nat) : list nat :=
   flat_map (fun j => flat_map (tube_quad flip sides j) (seq 0 sides)) (seq 0 (points - 1)).
 
+(* primitives.Quad.ToMesh: four corners, two triangles (Cube.UnweldedQuads appends six of them) *)
+Definition quad_nverts : nat := 4.
+Definition quad_idx : list nat := [0; 1; 2; 2; 3; 0].
+
+(* extrude.Line(points) (points >= 2): three vertices (middle, right, left) per line point; between
+   point i-1 (back) and point i (front) two triangles on the right and two on the left *)
+Definition ribbon_nverts (points : nat) : nat := points * 3.
+Definition ribbon_seg (i : nat) : list nat :=
+  let f := S i * 3 in
+  let b := i * 3 in
+  [f; b; S b; f; S b; S f; f; S (S f); b; S (S f); S (S b); b].
+Definition ribbon_idx (points : nat) : list nat := flat_map ribbon_seg (seq 0 (points - 1)).
+
+(* extrude.makeShape(shape, path, close) (extrude.Shape / ClosedShape): one ring of |shape| = sides
+   vertices per path point - for EVERY path point, also one in line with or equal to its neighbours;
+   side i of the segment from ring j (bottom) to ring j+1 (top; ring 0 when the path is closed and j is
+   the last ring) joins corner i to corner i-1 (cyclically) *)
+Definition shape_nverts (sides points : nat) : nat := points * sides.
+Definition shape_quad (sides bottom top i : nat) : list nat :=
+  let tr := top + i in
+  let br := bottom + i in
+  let tl := match i with 0 => top + sides - 1 | _ => tr - 1 end in
+  let bl := match i with 0 => bottom + sides - 1 | _ => br - 1 end in
+  [bl; tl; tr; bl; tr; br].
+Definition shape_idx (sides points : nat) (closed : bool) : list nat :=
+  flat_map (fun j => flat_map (shape_quad sides (j * sides) (S j * sides)) (seq 0 sides)) (seq 0 (points - 1))
+  ++ (if closed then flat_map (shape_quad sides ((points - 1) * sides) 0) (seq 0 sides) else []).
+
 (* the flip table is handed over as one boolean per quad, in emission order *)
 Definition flip_of (fl : list bool) (sides : nat) (j i : nat) : bool := nth (j * sides + i) fl false.
 
